@@ -216,6 +216,21 @@ CHECKS['C12'] = dict(
          'cancellation). Three pre-existing defects of the d=3 closed form are recorded in known_findings.txt (not repaired: a correct '
          'treatment of structured and degenerate 3x3 inputs needs a different algorithm, not a small patch).',
     design='§3 C12, §4, §5')
+CHECKS['C18'] = dict(
+    text='NON-INTERFERENCE ARGUMENT, not an exploration of schedules (hence level "other"). (a) A static scan of the linked IR of the four '
+         'library translation units shows no mutable non-thread-local global; the write sets of the public operation classes (vector '
+         'algebra incl. rotations and the Pade matrix exponential; const queries GetExpectationValue/D (plain and averaging), '
+         'GetIntermediateState, Get_i on a solver built by another thread) are measured by executing the real code in the IR interpreter '
+         'under logical threads with an access monitor: every store must hit the calling thread\'s stack, heap blocks, buffers or its own '
+         'thread-local instances, never the shared solver or another thread\'s storage; results are bit-identical across threads and equal '
+         'to the native single-thread run. (b) Vectors created under one thread are destroyed under another. (c) At thread exit the '
+         'thread-local destructors the code registered are executed and the allocation ledger must be empty.',
+    note='Schedules themselves are not enumerated: pthreads / TLS runtime have no encoding here and CBMC\'s concurrency mode cannot take '
+         'this pointer-based code; if no operation writes memory another thread can access, every interleaving is race free and returns '
+         'the sequential values. The solver is not the deciding element for this property (concrete execution with a monitor + static '
+         'scan); assumed: GSL/libstdc++ thread safety for distinct objects, write sets independent of the data values used.',
+    design='§3 C18, §4', category='other',
+    technique='write-set non-interference: static scan of the linked LLVM IR for shared mutable state + monitored execution of the real IR under logical threads with thread-exit destructor run (no solver verdict; schedules not explored)')
 NA_REASON = 'check not built yet (framework under construction; see DESIGN.md)'
 NA = {}
 
